@@ -169,10 +169,7 @@ class ReachingDefs:
                 return n
 
             def visit_NamedExpr(self, n):
-                if rename:
-                    return self.visit(n.value)  # the binding is looked through: uses are substituted by the value
-                n.value = self.visit(n.value)
-                return n
+                return self.visit(n.value)  # the binding is looked through: uses are substituted by the value
 
             def visit_Name(self, n):
                 for sc in reversed(self.scopes):
